@@ -287,16 +287,16 @@ Section Drive.
       + (* converged *)
         destruct (after_convergence_ok s1 (n_store n) k _ a acc HIn HTn) as [Hclk Hh].
         set (h := after_convergence V vadd T O c sched zT s1 (n_store n) k) in *.
-        destruct (h_out h) as [| x | b | | e] eqn:Eout.
+        destruct (h_out h) as [| dt0 | b0 | | e] eqn:Eout.
         5:{ destruct Hh as [Hexc Hst]. rewrite Hexc in Hd. inversion Hd; subst. clear Hd.
             split; [intros x; discriminate|]. split.
             - cbn [trace_ok]. split; [|exact I]. unfold entry_ok, accept1, no_exc.
-              cbn [e_res e_out e_store]. match goal with |- ?G => idtac G end. rewrite Eout.
+              cbn [e_res e_out e_store]. rewrite ?Eout.
               split; [intros x; discriminate|split; [discriminate|]].
               split; [rewrite Hst; exact HTn|discriminate].
             - cbn [map C09.drive stop_of]. rewrite Efin. unfold ev_of at 1. cbn [e_res].
               fold s1. rewrite <- Hclk. unfold clock_of, ev_of. cbn [e_res e_clock e_out].
-              rewrite Eout. reflexivity. }
+              rewrite ?Eout. reflexivity. }
         all: destruct Hh as [Hexc [HIh HTh]]; rewrite Hexc in Hd;
           destruct (drive V vadd T O maxit zI zT c sched (h_clock h) (h_store h) solves)
             as [tr' sp'] eqn:Erec;
@@ -304,26 +304,26 @@ Section Drive.
           destruct (IH _ _ _ _ _ _ HIh HTh Erec) as [IH1 [IH2 IH3]];
           (split; [exact IH1|]); split.
         all: try (cbn [trace_ok]; unfold entry_ok at 1; unfold accept1 at 1 2 3, no_exc;
-                  cbn [e_res e_out e_store e_used hd]; rewrite Eout;
+                  cbn [e_res e_out e_store e_used hd]; rewrite ?Eout;
                   split; [split; [intros x; discriminate|split; [discriminate|]];
                           split; [exact HTh|intros _; exact HIh]|exact IH2]).
         all: cbn [map C09.drive]; rewrite Efin; unfold ev_of at 1; cbn [e_res];
           fold s1; rewrite <- Hclk; unfold clock_of at 1, ev_of at 1;
-          cbn [e_res e_clock e_out]; rewrite Eout; rewrite IH3; reflexivity.
+          cbn [e_res e_clock e_out]; rewrite ?Eout; fold (@ev_of V T); rewrite IH3; reflexivity.
       + (* failed *)
         destruct (after_failure_ok s1 (n_store n) _ a acc HIn HTn) as [Hclk [Htsf Hh]].
         set (h := after_failure V vadd T O c sched s1 (n_store n)) in *.
         assert (HTf : WT (h_store h) (a :: acc)) by (unfold WT; rewrite Htsf; exact HTn).
-        destruct (h_out h) as [| x | b | | e] eqn:Eout.
+        destruct (h_out h) as [| dt0 | b0 | | e] eqn:Eout.
         5:{ destruct Hh as [Hexc Hst]. rewrite Hexc in Hd. inversion Hd; subst. clear Hd.
             split; [intros x; discriminate|]. split.
             - cbn [trace_ok]. split; [|exact I]. unfold entry_ok, accept1, no_exc.
-              cbn [e_res e_out e_store]. rewrite Eout.
+              cbn [e_res e_out e_store]. rewrite ?Eout.
               split; [intros x; discriminate|split; [discriminate|]].
               split; [exact HTf|discriminate].
             - cbn [map C09.drive stop_of]. rewrite Efin. unfold ev_of at 1. cbn [e_res].
               fold s1. rewrite <- Hclk. unfold clock_of, ev_of. cbn [e_res e_clock e_out].
-              rewrite Eout. reflexivity. }
+              rewrite ?Eout. reflexivity. }
         all: destruct Hh as [Hexc HIh]; rewrite Hexc in Hd;
           destruct (drive V vadd T O maxit zI zT c sched (h_clock h) (h_store h) solves)
             as [tr' sp'] eqn:Erec;
@@ -331,12 +331,12 @@ Section Drive.
           destruct (IH _ _ _ _ _ _ HIh HTf Erec) as [IH1 [IH2 IH3]];
           (split; [exact IH1|]); split.
         all: try (cbn [trace_ok]; unfold entry_ok at 1; unfold accept1 at 1 2 3, no_exc;
-                  cbn [e_res e_out e_store e_used hd]; rewrite Eout;
+                  cbn [e_res e_out e_store e_used hd]; rewrite ?Eout;
                   split; [split; [intros x; discriminate|split; [discriminate|]];
                           split; [exact HTf|intros _; exact HIh]|exact IH2]).
         all: cbn [map C09.drive]; rewrite Efin; unfold ev_of at 1; cbn [e_res];
           fold s1; rewrite <- Hclk; unfold clock_of at 1, ev_of at 1;
-          cbn [e_res e_clock e_out]; rewrite Eout; rewrite IH3; reflexivity.
+          cbn [e_res e_clock e_out]; rewrite ?Eout; fold (@ev_of V T); rewrite IH3; reflexivity.
       + (* the scripted inputs ran out *)
         inversion Hd; subst. split; [intros e; discriminate|split; [exact I|]].
         cbn [map C09.drive stop_of]. rewrite Efin. reflexivity.
